@@ -99,10 +99,10 @@ def _keys_for(sa):
         return None
 
 
-def _seal_raw(h, first, inner, integ_id, sk_a, sk_e, iv, geom=None, r=None, outer=()):
+def _seal_raw(h, first, inner, integ_id, sk_a, sk_e, iv, geom=None, r=None, outer=(), pad_extra=0):
     """Reference SK sealing of arbitrary inner octets; geom damages the encrypted body itself; outer = cleartext payload dicts
     placed in front of the SK payload (RFC 7296 only requires SK to be the last payload of the message)."""
-    pad = (-(len(inner) + 1)) % 16
+    pad = (-(len(inner) + 1)) % 16 + 16 * pad_extra       # (a sender may pad further than the minimum, up to 255: RFC 7296 3.14)
     pt = inner + b'\0' * pad + bytes([pad])
     if geom == 'badpad':
         pt = inner + b"\0" * pad + bytes([r.choice([255, pad + 16, len(pt), 200]) & 0xFF])
